@@ -6,6 +6,7 @@ import DEvo.Opt.Optimize
 import DEvo.Sql.Merge
 import DEvo.Sql.Rebuild
 import DEvo.Sql.Schema
+import DEvo.Ser.Py
 import DEvo.Run.Tx
 import DEvo.Run.History
 import DEvo.Run.Migrations
@@ -103,6 +104,33 @@ def handle (j : Json) : Except String Json := do
     pure (Json.mkObj [("stored", Codec.svJ stored), ("back", Codec.vJ back),
       ("wf", toJson (Ser.WF v)), ("norm", Codec.vJ (Ser.norm v)),
       ("restored", Codec.svJ (Ser.json (Ser.toSig back)))])
+  | "py_roundtrip" =>
+    -- serialize_to_python -> Python's parse -> evaluation, for one value
+    let v ← Codec.vOf (← j.getObjVal? "value")
+    let tj ← (← j.getObjVal? "separators").getArr?
+    let table : List (String × String) ← tj.toList.mapM (fun p => do
+      let q ← p.getArr?
+      match q.toList with
+      | [a, b] => do pure (← a.getStr?, ← b.getStr?)
+      | _ => throw "bad separator entry")
+    let perr := fun (e : Ser.PErr) => match e with
+      | .keyError k => Json.mkObj [("err", "KeyError"), ("what", k)]
+      | .typeError w => Json.mkObj [("err", "TypeError"), ("what", w)]
+    let eerr := fun (e : Ser.EErr) => match e with
+      | .syntaxError => "SyntaxError" | .nameError _ => "NameError" | .attributeError _ => "AttributeError"
+      | .notImplemented _ => "NotImplementedError" | .typeError _ => "TypeError"
+    match Ser.toPy table v with
+    | .error e => pure (Json.mkObj [("render", perr e)])
+    | .ok p0 =>
+      let p := (Ser.cutComment p0).1
+      let ok := Ser.syntaxOk p
+      let tree := Ser.reparse p
+      let res := if !ok then Json.mkObj [("err", "SyntaxError")]
+        else match Ser.evalPy tree with
+          | .error e => Json.mkObj [("err", eerr e)]
+          | .ok v' => Json.mkObj [("value", Codec.vJ v')]
+      pure (Json.mkObj [("render", Json.mkObj [("tree", Codec.pyJ p)]), ("syntax_ok", toJson ok),
+        ("parsed", Codec.pyJ tree), ("result", res)])
   | "variant" =>
     pure (Json.mkObj [("commit_on_failure", toJson Run.commitOnFailure),
       ("mergeable_ok", toJson (Sql.mergeableOK Generated.mergeableOps))])
